@@ -21,7 +21,7 @@ THEOREMS = [
     "walk_address_only",
     "otfad_decrypts_except_known", "otfad_decrypts_except_known_aes", "otfad_decrypts_refuted", "otfad_untouched_outside",
     "otfad_address_only", "otfad_keyblob_unwrap", "otfad_keyblob_unwrap_aes",
-    "iee_decrypts_except_known", "iee_bypass_refuted", "iee_ctr_total_refuted", "iee_address_only", "iee_keyblob_unwrap_partial",
+    "iee_decrypts_except_known", "iee_bypass_refuted", "iee_address_only", "iee_keyblob_unwrap_partial",
     "bee_decrypts_except_known", "bee_decrypts_refuted", "bee_address_only", "bee_header_unwrap_partial",
 ]
 M32 = 1 << 32
@@ -617,8 +617,6 @@ def known_class(c):
     if e == "iee":
         if any(b["mode"] == 0x6A for b in c["blobs"]):
             return "bypass-mode-encrypted"
-        if any(b["mode"] in (0x66, 0xAA, 0x19) for b in c["blobs"]):
-            return "ctr-counter-overflow"
     if e == "bee":
         bounds = [x for h in c["hs"] if h for (s, l, v) in h["facs"] for x in (s, s + l)]
         if c["base"] % 1024 and straddles(c["base"], len(c["img"]), 1024, bounds):
